@@ -551,13 +551,19 @@ def _base_trace(scn):
     return trace
 
 
-def c08_signature(scn, clause, member=None):
+LIFE_SIG = "C08:Hexital:lifespan+timeframe-member:at-construction"
+
+
+def c08_signature(scn, clause, member=None, step=None, index=None):
     cfg = scn["hx"]
+    # open known finding: a member's manager is BUILT from what the (already trimmed) default manager holds, so right after
+    # construction its oldest retained bucket can be partial.  Only that: first difference at construction, on the oldest bucket.
+    if clause in ("member-candles", "member-readings") and cfg.get("life") is not None and any(m.get("tf") for m in scn["members"]) \
+            and step == 0:
+        return LIFE_SIG
     if clause in ("member-candles", "member-readings", "raised") and cfg.get("ha") and (
             any(m.get("tf") for m in scn["members"])):
         return "C08:Hexital:heikin-ashi+timeframe-member"
-    if clause in ("member-candles", "member-readings") and cfg.get("life") is not None and any(m.get("tf") for m in scn["members"]):
-        return "C08:Hexital:lifespan+timeframe-member"  # only reachable with genkw wide=True (outside the default domain)
     if clause in ("member-candles", "member-readings") and cfg.get("fill") and cfg.get("tf") and any(m.get("tf") for m in scn["members"]):
         return "C08:Hexital:base-fill+timeframe-member"  # likewise only with wide=True
     who = spec_label(member) if member else "Hexital"
@@ -600,12 +606,13 @@ def _c08_core(scn):
                 exp_c, exp_r = tr[j]
                 d = first_diff(candle_tuples(ind.candles), exp_c)
                 if d:
-                    return {"clause": "member-candles", "member": n, "step": j, **d, "signature": c08_signature(scn, "member-candles", m)}
+                    return {"clause": "member-candles", "member": n, "step": j, **d,
+                            "signature": c08_signature(scn, "member-candles", m, step=j, index=d.get("index"))}
                 for label, col in (("as_list", ind.as_list()), ("reading_as_list", hx.reading_as_list(n))):
                     d = first_diff(col, exp_r)
                     if d:
                         return {"clause": "member-readings", "via": label, "member": n, "step": j, **d,
-                                "signature": c08_signature(scn, "member-readings", m)}
+                                "signature": c08_signature(scn, "member-readings", m, step=j)}
             # base candles: exactly those of a bare manager with the Hexital-level settings (members leave them alone) ...
             got = candle_tuples(hx.candles())
             d = first_diff(got, base_trace[j])
@@ -661,8 +668,8 @@ def gen_c08(rng, size=50, allow_hx_tf=True, allow_ha_member_tf=True, wide=False)
         # a gap-filling base timeframe would hand members a stream that contains synthetic candles only at
         # construction time; fill is therefore combined with member timeframes only when the base is raw
         cfg["fill"] = wide or not (cfg["tf"] and member_tf)
-    if with_ts and rng.random() < 0.25 and (wide or not member_tf):
-        cfg["life"] = gen.tf_seconds(base_tf) * rng.choice([0, 1, 3, 10, 20, 40])
+    if with_ts and rng.random() < 0.25:
+        cfg["life"] = gen.tf_seconds(base_tf) * rng.choice([0, 1, 3, 10, 20, 40]) + rng.choice([0, 0, 0, 1, gen.tf_seconds(base_tf) // 2])
     if cfg["ha"] and member_tf and not allow_ha_member_tf:
         cfg["ha"] = False
     if cfg["ha"] and member_tf:
